@@ -71,7 +71,22 @@ pub fn hostile_bytes(rng: &mut Rng, max_len: usize) -> Vec<u8> {
             5 => {
                 // long run without CRLF
                 let n = rng.range(1000, 1100);
-                let run: Vec<u8> = (0..n).map(|i| b'x' - (i % 5) as u8).collect();
+                // ASCII, raw high bytes, or 2/3/4-byte UTF-8 characters in either phase: error texts built
+                // from an over-long line must cope with any of them at any cut
+                let unit: &[u8] = match rng.below(6) {
+                    0 | 1 => b"xwvut",
+                    2 => &[0x80, 0xFF, 0xBF, 0xC3],
+                    3 => "\u{e9}".as_bytes(),
+                    4 => "\u{20ac}".as_bytes(),
+                    _ => "\u{1F600}".as_bytes(),
+                };
+                let mut run: Vec<u8> = Vec::with_capacity(n + 4);
+                if rng.chance(1, 2) {
+                    run.push(b'h');
+                }
+                while run.len() < n {
+                    run.extend_from_slice(unit);
+                }
                 v.splice(p..p, run);
             }
             6 => {
